@@ -1,5 +1,15 @@
 import Mp.ProofsG
+import Mp.NullProofs
+import Mp.FactChecks
 /-! C19 — property theorems (proved in the imported modules; statements are checked there, axioms audited here). -/
 #print axioms Mp.propagate
 #print axioms Mp.missing_marked_key
 #print axioms Mp.missing_unmarked_key
+#print axioms Mp.isNotNull_neg
+#print axioms Mp.isNotEmpty_neg
+#print axioms Mp.isNotNullOrEmpty_neg
+#print axioms Mp.isNullOrEmpty_disj
+#print axioms Mp.isNull_table
+#print axioms Mp.isEmpty_table
+#print axioms Mp.null_predicates_reject_arguments
+#print axioms Mp.FactChecks.isNil_kinds
